@@ -194,22 +194,27 @@ def svc_scenarios(tier, first_id):
 
 
 def wired_scenarios(tier, first_id):
-    """Family "callers" (224 histories): quick takes a seeded sample in which the histories that lose V1's account
-    while a document with an account entry for V1 (2, 3, 4) is in force are over-represented."""
+    """Family "callers" (224 histories): quick takes a seeded, stratified sample of 30."""
     hs = vf.tlc_scenarios(PID, "Scen_ExecConfigSvc", "Scen_ExecConfigSvc_callers.cfg", exhaustive=True,
                           name="scen-svc-callers", timeout=900)
     if tier == "quick":
+        # stratified: every document is in force at the start of three histories in which both validators are Vouch's
+        # own (different sets of lost accounts where possible) and of one in which V2 is foreign; the rest is sampled
         rnd = random.Random(vf.seed() * 31 + 7)
-
-        def key(h):
-            f = [x for x in h if x["ev"] == "Fetch"][0]
-            left = [x for x in h if x["ev"] == "Refresh"][0]["known"]
-            return "V1" not in left and (h[0]["init"] in (2, 3, 4) or (f["out"] == "good" and f["doc"] in (2, 3, 4)))
-        must = [h for h in hs if key(h)]
-        rest = [h for h in hs if not key(h)]
-        rnd.shuffle(must)
-        rnd.shuffle(rest)
-        hs = must[:20] + rest[:10]
+        rnd.shuffle(hs)
+        pick, rest = [], []
+        cnt = {}
+        for h in hs:
+            both = len(h[0]["known"]) == 2
+            k = (h[0]["init"], both)
+            left = tuple([x for x in h if x["ev"] == "Refresh"][0]["known"])
+            seen = cnt.setdefault(k, set())
+            if h[0]["init"] != 0 and left not in seen and len(seen) < (3 if both else 1):
+                seen.add(left)
+                pick.append(h)
+            else:
+                rest.append(h)
+        hs = pick + rest[:max(0, 30 - len(pick))]
     return [{"sc": first_id + i, "family": "service-callers", "steps": h} for i, h in enumerate(hs)]
 
 
@@ -225,17 +230,17 @@ SVC_CONTROL = [("_memo", "invariant", "UsesInForce"), ("_memo_seq", None, None),
 def svc_design_checks(v, tier):
     mc_pool = ThreadPoolExecutor(max_workers=2)
     mc_fut = mc_pool.submit(vf.tlc_exhaustive, PID, "ExecConfigSvc", "MC_ExecConfigSvc_big.cfg" if tier == "thorough"
-                            else "MC_ExecConfigSvc.cfg", workers=4, timeout=1500)
+                            else "MC_ExecConfigSvc.cfg", workers=4, timeout=2400, heap="3g" if tier == "thorough" else "2g")
     # the entry points with the account manager as a component of its own (known, AcctRefresh, CallLookup)
     mc_callers = mc_pool.submit(vf.tlc_exhaustive, PID, "ExecConfigSvc", "MC_ExecConfigSvc_callers_big.cfg"
-                                if tier == "thorough" else "MC_ExecConfigSvc_callers.cfg", workers=6, timeout=1500,
-                                name="mc-svc-callers")
+                                if tier == "thorough" else "MC_ExecConfigSvc_callers.cfg", workers=6, timeout=2400,
+                                heap="3g" if tier == "thorough" else "2g", name="mc-svc-callers")
     # control model: settings remembered per validator, memo emptied by every fetch - right in every history without
     # overlap (must pass), wrong when a call overlaps a fetch (must violate UsesInForce); remembering only while
     # the document read is still in force is fine (must pass)
-    with ThreadPoolExecutor(max_workers=len(SVC_CONTROL)) as ex:
+    with ThreadPoolExecutor(max_workers=3) as ex:
         rs = list(ex.map(lambda c: vf.tlc(PID, "mc-svc" + c[0], "ExecConfigSvc", "MC_ExecConfigSvc%s.cfg" % c[0],
-                                          workers=2, timeout=900), SVC_CONTROL))
+                                          workers=2, timeout=1800, heap="1g"), SVC_CONTROL))
     for (name, kind, inv), r in zip(SVC_CONTROL, rs):
         if kind is None:
             if not r["ok"]:
@@ -268,9 +273,9 @@ def run(tier):
     f_svc_design = side.submit(svc_design_checks, v, tier)
     f_svc_gen = side.submit(svc_scenarios, tier, 1000001)
     f_wired_gen = side.submit(wired_scenarios, tier, 2000001)
-    v.add_mc(vf.tlc_exhaustive(PID, "ExecConfig", "MC_ExecConfig.cfg", coverage=(tier == "thorough")))
+    v.add_mc(vf.tlc_exhaustive(PID, "ExecConfig", "MC_ExecConfig.cfg", coverage=(tier == "thorough"), timeout=2400))
     if tier == "thorough":
-        v.add_mc(vf.tlc_exhaustive(PID, "ExecConfig", "MC_ExecConfig_big.cfg", timeout=1500))
+        v.add_mc(vf.tlc_exhaustive(PID, "ExecConfig", "MC_ExecConfig_big.cfg", timeout=3000))
     sc = scenarios(tier)
     vf.conformance(v, sc, driver, "Trace_ExecConfig", "Trace_ExecConfig.cfg", sig_of, nontrivial,
                    chunk=8000, tlc_timeout=900, max_failures=3)
